@@ -57,6 +57,7 @@ TM = "pymarkdown/general/tokenized_markdown.py::TokenizedMarkdown."
 
 register(Assumed(TM + "transform_from_provider", returns="List[MarkdownToken]", fresh_result=True,
                  raises=[Raises("BadTokenizationError")], modifies=["_FileSourceProvider__read_index"],
+                 ensures=["implies(len(result) > 0 and result[len(result) - 1].is_pragma, forall_val(lambda k: implies(k in result[len(result) - 1]._PragmaToken__pragma_lines, k != 0 and pragma_line_ok(result[len(result) - 1]._PragmaToken__pragma_lines[k], k > 0))))"],
                  why="the parser: opaque. Only BadTokenizationError leaves it (TokenizedMarkdown.__transform is one "
                      "try/except Exception -> BadTokenizationError; checked structurally in C15::parser_wraps)"))
 _R["$fields"].types.update({
@@ -160,3 +161,5 @@ for _f in ("_PyMarkdownLint__plugins", "_PyMarkdownLint__presentation", "_PyMark
 _R["$fields"].types.update({"os.altsep": "Optional[str]", "os.sep": "str"})
 
 _R["$namespace"].types.update({"paths": "List[str]", "recurse_directories": "bool", "alternate_extensions": "str", "list_files": "bool"})
+
+_R["$fields"].types.update({"MarkdownToken._PragmaToken__pragma_lines": "Dict[int, str]", "PragmaToken._PragmaToken__pragma_lines": "Dict[int, str]"})
